@@ -266,9 +266,20 @@ MustRaise(a, s) ==
          UpdateIsEmpty(a.u) \/ (a.fail # 0 /\ Cardinality(SelectedBy(a, s)) >= (IF a.fail < 0 THEN 0 - a.fail ELSE a.fail))
     [] OTHER -> FALSE
 
+(* A point without a time (t = NowT) receives the insertion time: one stamp  *)
+(* per call, logged as a.now - a rank >= NowBase, later than every instant  *)
+(* of the theme and not earlier than any stamp handed out before.           *)
+NowT == -5
+NowBase == 1000
+HasNow(a) == "now" \in DOMAIN a
+Stamp(p, a) == IF p.t = NowT /\ HasNow(a) THEN [p EXCEPT !.t = a.now] ELSE p
+StampAll(ps, a) == [i \in 1..Len(ps) |-> Stamp(ps[i], a)]
+NowOK(a, s) == HasNow(a) => /\ a.now >= NowBase
+                            /\ \A i \in 1..Len(s) : s[i].t >= NowBase => s[i].t <= a.now
+
 StoreAfter(a, s) ==
-  CASE a.op = "insert" -> InsertStore(s, a.p, a.m)
-    [] a.op = "insert_multiple" -> InsertManyStore(s, a.ps, a.m)      \* also when it raises after ps
+  CASE a.op = "insert" -> InsertStore(s, Stamp(a.p, a), a.m)
+    [] a.op = "insert_multiple" -> InsertManyStore(s, StampAll(a.ps, a), a.m)      \* also when it raises after ps
     [] a.op \in {"remove", "drop_measurement"} -> RemoveStore(s, SelectedBy(a, s))
     [] a.op = "remove_all" -> <<>>
     [] a.op \in {"update", "update_all"} ->
@@ -325,7 +336,7 @@ RECURSIVE NonDecreasing(_)
 NonDecreasing(ps) == \A i \in 1..(Len(ps) - 1) : ps[i].t <= ps[i + 1].t
 ValidAllowed(a, s, vBefore, vAfter, raised) ==
   /\ (AutoIndex /\ ~ raised /\ a.op \in IndexingReads /\ ~ (ViaHandle(a) /\ a.op = "all")) => vAfter
-  /\ (AutoIndex /\ vBefore /\ ~ raised /\ a.op = "insert" /\ InOrderAfter(s, <<a.p>>)) => vAfter
+  /\ (AutoIndex /\ vBefore /\ ~ raised /\ a.op = "insert" /\ InOrderAfter(s, <<Stamp(a.p, a)>>)) => vAfter
   /\ (AutoIndex /\ vBefore /\ ~ raised /\ a.op = "insert_multiple"
-        /\ InOrderAfter(s, a.ps) /\ NonDecreasing(a.ps)) => vAfter
+        /\ InOrderAfter(s, StampAll(a.ps, a)) /\ NonDecreasing(StampAll(a.ps, a))) => vAfter
 =============================================================================
